@@ -1314,13 +1314,10 @@ func vmInterpPolls(c *Ctx) []Obligation {
 		where := token.NoPos
 		for _, obj := range order {
 			t := trs[obj]
-			for _, sw := range vmTopSwitches(c, t.fn.info, t.fn.fd.Body) {
-				cl := vmClauseOf(t.fn.info, sw, konst)
-				if cl == nil {
-					continue
-				}
-				where = cl.Pos()
-				for _, s := range cl.Body {
+			pos, bodies := vmKindClauses(c, t.fn, konst)
+			for _, body := range bodies {
+				where = pos
+				for _, s := range body {
 					ast.Inspect(s, func(n ast.Node) bool {
 						if call, isCall := n.(*ast.CallExpr); isCall {
 							if g := trs[CalleeOf(t.fn.info, call)]; g != nil {
